@@ -29,6 +29,7 @@ type JobResult struct {
 	Reached      map[string]int
 	Violations   []Violation
 	Samples      []*Sample
+	UnsupSamples []*Sample // inputs of paths the engine could not finish (run natively: concolic fallback)
 	Funcs        []string
 	Stubs        []string
 	Queries      int64
@@ -147,7 +148,9 @@ func explore(ld *loaded, j *Job, workers int, seed int64, verbose bool) *JobResu
 				if len(res.Violations) < maxViolationsKept {
 					res.Violations = append(res.Violations, pr.violations...)
 				}
-				if pr.sample != nil {
+				if pr.sample != nil && pr.sample.Unsupported {
+					res.UnsupSamples = append(res.UnsupSamples, pr.sample)
+				} else if pr.sample != nil {
 					res.Samples = append(res.Samples, pr.sample)
 					if len(res.Samples) > 2*maxSamplesKept {
 						// thin out: keep every other sample, sample half as often from now on
